@@ -35,6 +35,9 @@ CHECKS["C20"] = {
         {"name": "cfgparser", "pkg": "framework/cfgparser",
          "overlay": {"verif_c20_test.go": "harness/C20/cfgparser_test.go"},
          "fuzz": {"targets": ["FuzzVerifC20"], "seconds": 150}},
+        {"name": "shipped", "pkg": ".", "run": "^TestVerifC20Shipped$",
+         "overlay": {"verif_c20_test.go": "harness/C20/shipped_test.go"},
+         "quick": {"n": 48, "shards": 16}, "thorough": {"n": 960, "shards": 16}},
     ],
     "quick": {"n": 60000, "shards": 8, "mem_kb": 6 * 1024 * 1024},
     "thorough": {"n": 2400000, "shards": 16, "mem_kb": 6 * 1024 * 1024},
@@ -126,6 +129,9 @@ CHECKS["C14"] = {
     "units": [
         {"name": "pass_table", "pkg": "internal/auth/pass_table",
          "overlay": {"verif_c14_test.go": "harness/C14/pass_table_test.go"}},
+        {"name": "submission", "pkg": "internal/endpoint/smtp", "run": "^TestVerifC14Submission$",
+         "overlay": {"verif_c03_test.go": "harness/C03/session_test.go", "verif_c14_test.go": "harness/C14/submission_test.go"}, "overlay_abs": VERIFX,
+         "quick": {"n": 3200, "shards": 16}, "thorough": {"n": 128000, "shards": 16}},
     ],
     "quick": {"n": 1600, "shards": 16},
     "thorough": {"n": 64000, "shards": 16},
